@@ -124,8 +124,14 @@ def check_one(ctx, cr, dct, remove, rng, what):
 
     ctx.stats["evaluations"] += 1
     cyc = is_cyclic(dct)
+    import copy as _copy
+
+    # expectations are computed from copies taken BEFORE the call (the call must not change its arguments, and if it did the
+    # expectations must not follow)
+    cr_arg, dct_arg = cr, dct
+    cr, dct = _copy.deepcopy(cr), _copy.deepcopy(dct)
     try:
-        out = add_aggregated_resources(cr, dct, remove_decomposed=remove)
+        out = add_aggregated_resources(cr_arg, dct_arg, remove_decomposed=remove)
     except RecursionError as e:
         ctx.violation("failing-input", f"{what}: aggregation recursed without bound", {"aggregation": dct, "remove_decomposed": remove}, "RecursionError", "ValueError")
         return False
